@@ -69,6 +69,7 @@ def history(rng, maxn, maxk, length, space_ok=True):
         init = []
     cur = list(dict.fromkeys(init)) if False else list(init)
     ops = []
+    stack = []          # the collections copies were taken from (for `swap`)
     def n():
         return len(cur[0]) if cur else rng.randint(1, maxn)
     def member():
@@ -112,7 +113,7 @@ def history(rng, maxn, maxk, length, space_ok=True):
             else:
                 t = [q]
         else:
-            k = rng.choice(["app", "app", "ins", "rem", "del", "rep", "rep", "con", "con", "exp", "sort", "sort", "copy", "ccopy"])
+            k = rng.choice(["app", "app", "ins", "rem", "del", "rep", "rep", "con", "con", "exp", "sort", "sort", "copy", "ccopy", "swap"])
             if k == "app":
                 t = [k, newstr()]
             elif k == "ins":
@@ -139,7 +140,13 @@ def history(rng, maxn, maxk, length, space_ok=True):
                 t = [k, str(n() + rng.choice([-1, 0, 0, 1, 1, 2]))]
             else:
                 t = [k]
-            cur = spec_edit(cur, t)
+            if k in ("copy", "ccopy"):
+                stack.insert(0, list(cur))
+            if k == "swap":
+                if stack:
+                    cur, stack[0] = stack[0], cur
+            else:
+                cur = spec_edit(cur, t)
         ops.append(":".join(t))
     return G.line_of("hist", init, ";".join(ops) or "-")
 
@@ -168,7 +175,7 @@ def build_streams(rng, tier):
     def hist_ops(res_hist, ls):
         pass
     kw = dict(oracle=oracle, shrink=shrink, tag=lambda l, o: "with-error-exit" if "!" in o else "no-error-exit",
-              nontrivial=lambda l, o: any(x.split(":")[0] in ("rep", "con", "exp", "sort", "copy", "ccopy", "del", "rem", "ins") for x in l.split(" ")[2].split(";")))
+              nontrivial=lambda l, o: any(x.split(":")[0] in ("rep", "con", "exp", "sort", "copy", "ccopy", "swap", "del", "rem", "ins") for x in l.split(" ")[2].split(";")))
     return [
         Stream("corpus", corpus_lines(PID), IC.handle, **kw),
         Stream("histories-n<=4", lines, IC.handle, **kw),
